@@ -258,8 +258,12 @@ func (e *expansionAlt) eval(cfg *Config, opts *options) (string, error) {
 		return "", nil
 	}
 
+	// only test whether the name resolves: it must not stay active afterwards
+	parentFields := opts.activeFields
+	opts.activeFields = newFieldSet(parentFields)
 	ref := newReference(parsePath(path, e.pathSep, opts.maxIdx, opts.enableNumKeys, opts.escapePath))
 	tmp, err := ref.resolve(cfg, opts)
+	opts.activeFields = parentFields
 	if err != nil || tmp == nil {
 		return "", nil
 	}
